@@ -45,34 +45,55 @@ def explore(ctx):
     n = 200 if ctx.quick else 6000
     cases = []
     meta = []
+    dist = {}
     for k in range(n):
         a = program_for(ctx.rng, "a")
         b = program_for(ctx.rng, "b")
         reg_a = "REGSRC 0 %s %s" % (h("colliding"), h(lib_text("a", k)))
         reg_b = "REGSRC 1 %s %s" % (h("colliding"), h(lib_text("b", k)))
+        al = ["EVAL 0 " + h(f) for f in a]
+        bl = ["EVAL 1 " + h(f) for f in b]
+        files = []
+        if ctx.rng.random() < 0.5:
+            # each instance runs a program file from a directory of its own; a library file (flib) is present in
+            # one, both (with different contents) or neither of the two directories
+            for inst, d, tag, ops in ((0, "dir-a", "a", al), (1, "dir-b", "b", bl)):
+                have = ctx.rng.choice(["absent", "present", "present"])
+                dist[tag + "-flib-" + have] = dist.get(tag + "-flib-" + have, 0) + 1
+                if have == "present":
+                    files.append("FILE %s %s %s" % (h(d), h("flib"), h(
+                        "(define-library (flib) (export flib-value) (import (scheme base)) (begin (define (flib-value) '(flib-of %s))))" % tag)))
+                files.append("FILE %s %s %s" % (h(d), h("main.scm"), h(
+                    "(import (scheme base) (flib))\n(define from-file (flib-value))\n")))
+                ops.insert(0, "RUNFILE %d %s %s" % (inst, h(d), h("main.scm")))
+                at = ctx.rng.randint(1, len(ops))
+                ops.insert(at, "EVAL %d %s" % (inst, h("(import (flib))")))
+                ops.append("EVAL %d %s" % (inst, h("(flib-value)")))
+                ops.append("EVAL %d %s" % (inst, h("from-file")))
         # B alone
-        alone = ["FUEL 3000", "NEW 1 std", reg_b] + ["EVAL 1 " + h(f) for f in b]
+        alone = files + ["FUEL 3000", "NEW 1 std", reg_b] + bl
+        nb0 = len(files) + 3
         # interleaved: a random merge of A's and B's forms; instance B is created at a random point
-        merged = ["FUEL 3000", "NEW 0 std", reg_a]
+        merged = files + ["FUEL 3000", "NEW 0 std", reg_a]
         ia = ib = 0
         created_b = False
         bpos = []
-        while ib < len(b):
-            if ia < len(a) and ctx.rng.random() < 0.5:
-                merged.append("EVAL 0 " + h(a[ia]))
+        while ib < len(bl):
+            if ia < len(al) and ctx.rng.random() < 0.5:
+                merged.append(al[ia])
                 ia += 1
             else:
                 if not created_b:
                     merged += ["NEW 1 std", reg_b]
                     created_b = True
                 bpos.append(len(merged))
-                merged.append("EVAL 1 " + h(b[ib]))
+                merged.append(bl[ib])
                 ib += 1
         # a further instance can always be created
         merged.append("NEW 2 std")
         merged.append("EVAL 2 " + h("(+ 1 2)"))
-        cases.append({"lines": alone, "kind": "alone", "pair": k})
-        cases.append({"lines": merged, "kind": "interleaved", "pair": k, "bpos": bpos, "a": a, "b": b})
+        cases.append({"lines": alone, "kind": "alone", "pair": k, "nb0": nb0})
+        cases.append({"lines": merged, "kind": "interleaved", "pair": k, "bpos": bpos, "a": a, "b": b, "bl": bl})
     # the known class: syntax definitions in the root scope
     known = [
         {"lines": ["NEW 0 std", "NEW 1 std", "EVAL 1 " + h("(foo 1 2)"),
@@ -87,15 +108,17 @@ def explore(ctx):
         c = cases[j + 1]
         import re
         norm = lambda x: re.sub(r"#\d+", "#", x)       # vector identities are numbered per case
-        b_alone = [norm(x) for x in alone[0][3:]]
+        b_alone = [norm(x) for x in alone[0][cases[j]["nb0"]:]]
         b_inter = [norm(inter[0][p]) for p in c["bpos"]]
         compared += len(b_alone)
         if b_alone != b_inter:
             leaks += 1
             if leaks <= 5:
                 first = next(k for k, (x, y) in enumerate(zip(b_alone, b_inter)) if x != y)
-                ctx.violation({"lines": c["lines"], "meta": {"b_form": c["b"][first]}}, inter[0], inter[1],
-                              note="B's form %r gives %s alone but %s when interleaved with A" % (c["b"][first], b_alone[first], b_inter[first]))
+                bf = c["bl"][first].split()
+                bf = bf[0] + " " + bytes.fromhex(bf[-1]).decode()
+                ctx.violation({"lines": c["lines"], "meta": {"b_form": bf}}, inter[0], inter[1],
+                              note="B's step %r gives %s alone but %s when interleaved with A" % (bf, b_alone[first], b_inter[first]))
         if inter[1][-2] != "ok" or not inter[1][-1].startswith("(ok i3)"):
             leaks += 1
             ctx.violation({"lines": c["lines"], "meta": {}}, inter[0], inter[1], note="a new instance could not be created or used at the end")
@@ -109,12 +132,14 @@ def explore(ctx):
         "pairs_with_interference": leaks,
         "rule": "random program pairs A and B (core and derived forms with names drawn from a small shared pool, definitions, "
                 "assignments, vector mutation, failing forms, imports with prefixes, redefinition of car, and a library named "
-                "(colliding) registered with a different source in each instance and mutated through its exports), B's forms "
+                "(colliding) registered with a different source in each instance and mutated through its exports; in half of the pairs each "
+                "instance first runs a program file from a directory of its own, with a library file (flib) present in one, both "
+                "(different contents) or neither directory, imported again later), B's forms "
                 "interleaved at random with A's on two instances of one thread, instance B created at a random point, a third "
                 "instance created and used at the end: B's per-form results must equal those of B run alone (separate case, "
                 "fresh thread); all lines compared model vs implementation. non-trivial = every pair",
         "exhaustive": False,
-        "input_distribution": {"pairs": len(cases) // 2},
+        "input_distribution": dict(dist, pairs=len(cases) // 2),
         "samples": [{"a": cases[1]["a"][:4], "b": cases[1]["b"][:4], "model_b": [results[1][0][p] for p in cases[1]["bpos"]][:4]}],
     }
 
